@@ -576,6 +576,42 @@ class _Continue(Exception):
     pass
 
 
+class _BreakLoop(Exception):
+    pass
+
+
+class DataCond:
+    """a condition on the VALUES of the data (np.any(residual), a norm compared with a tolerance ...): true for
+    some inputs, false for others.  Its outcome is taken from the run's data policy; run_step explores every
+    outcome vector and requires that all paths that return give the same abstract result"""
+    def __init__(self, text):
+        self.text = text
+
+
+class _NeedPolicy(Exception):
+    pass
+
+
+class DataVal:
+    """a scalar computed from the values of the data (a reduction of an array, of the Jacobian ...): opaque"""
+    def __init__(self, text):
+        self.text = text
+
+    def _op(self, o):
+        return DataVal(self.text)
+    __add__ = __radd__ = __sub__ = __rsub__ = __mul__ = __rmul__ = __truediv__ = __rtruediv__ = _op
+
+    def __neg__(self):
+        return self
+
+    def __abs__(self):
+        return self
+
+
+class DataDependentStep(AnalysisError):
+    """the effect of a step depends on a condition on the data (a shortcut for special states)"""
+
+
 class IdxCond:
     """condition on the generic loop index (i > 0, i == 0 ...): true for some iterations, false for
     others -- both outcomes are explored by re-running the generic iteration"""
@@ -726,6 +762,10 @@ class AffInterp:
                     self.block(st.body, env, func)
                 except _Continue:
                     pass
+                except _BreakLoop:
+                    break          # over concrete items (tableau entries): python semantics
+        elif isinstance(st, ast.Break):
+            raise _BreakLoop()
         elif isinstance(st, ast.Raise):
             raise AnalysisError("%s:%d raise reached in abstract execution" % (func.qualname, st.lineno))
         else:
@@ -755,9 +795,21 @@ class AffInterp:
             return [Idx("i_" + it.name)]
         raise AnalysisError("%s:%d unsupported iterable" % (func.qualname, st.lineno))
 
+    data_policy = None
+    data_log = None
+
     def truth(self, v, st, func):
         if isinstance(v, bool):
             return v
+        if isinstance(v, DataCond):
+            if self.data_policy is None:
+                raise AnalysisError("%s:%d branch on a data-dependent condition `%s`" % (func.qualname, getattr(st, "lineno", 0), v.text))
+            k = len(self.data_log)
+            if k >= len(self.data_policy):
+                raise _NeedPolicy()
+            r = self.data_policy[k]
+            self.data_log.append("%s:%d `%s` taken as %s" % (func.qualname, getattr(st, "lineno", 0), v.text[:60], r))
+            return r
         if v is None:
             return False
         if isinstance(v, (int, Fraction)):
@@ -906,7 +958,7 @@ class AffInterp:
         ci = self.p.resolve_class_expr(node, mod)
         if ci is not None:
             return ClassRef(ci)
-        if node.id in ("hasattr", "getattr", "len", "range", "enumerate", "zip", "min", "max", "print", "isinstance", "abs", "float", "int"):
+        if node.id in ("hasattr", "getattr", "len", "range", "enumerate", "zip", "min", "max", "print", "isinstance", "abs", "float", "int", "any", "all", "reversed", "sum"):
             return NpRef("builtin." + node.id)
         if node.id in mod.imports or node.id in mod.from_imports:
             return Opaque(node.id)
@@ -1029,6 +1081,9 @@ class AffInterp:
     def e_Dict(self, node, env, func):
         return {self.eval(k, env, func): self.eval(v, env, func) for k, v in zip(node.keys, node.values)}
 
+    def e_GeneratorExp(self, node, env, func):
+        return self.e_ListComp(node, env, func)       # consumed at once by any / all / sum in the code analysed here
+
     def e_ListComp(self, node, env, func):
         if len(node.generators) != 1 or node.generators[0].ifs:
             raise AnalysisError("unsupported comprehension")
@@ -1098,6 +1153,8 @@ class AffInterp:
             return {ast.Lt: a < b, ast.LtE: a <= b, ast.Gt: a > b, ast.GtE: a >= b}[type(op)]
         if isinstance(a, Idx) or isinstance(b, Idx):
             return IdxCond(unparse(node))
+        if all(isinstance(x, (S, int, Fraction, EpsVal, DataVal)) for x in (a, b)) and any(isinstance(x, (S, DataVal)) for x in (a, b)):
+            return DataCond(unparse(node))          # a quantity derived from the data (a norm, a time step) against a bound
         raise AnalysisError("%s:%d comparison of abstract values" % (func.qualname, node.lineno))
 
     def e_BinOp(self, node, env, func):
@@ -1225,6 +1282,14 @@ class AffInterp:
                 return None
             if base == "abs":
                 return self.builtin("np.abs", args, kwargs, node, func)
+            if base in ("any", "all") and len(args) == 1:
+                vals = list(self.iterate(args[0], node, func)) if not isinstance(args[0], (AArr, Packed, JacMat, Op)) else [DataCond(unparse(node))]
+                if any(isinstance(v, (DataCond, AArr, DataVal)) for v in vals):
+                    return DataCond(unparse(node))
+                ts = [self.truth(v, node, func) for v in vals]
+                return any(ts) if base == "any" else all(ts)
+            if base == "reversed":
+                return list(reversed(list(self.iterate(args[0], node, func))))
             if base == "float" and len(args) == 1 and isinstance(args[0], (int, Fraction, S)):
                 return Fraction(args[0]) if isinstance(args[0], int) else args[0]       # exact in real arithmetic
             if base == "int" and len(args) == 1 and isinstance(args[0], int):
@@ -1232,6 +1297,10 @@ class AffInterp:
             raise AnalysisError("%s:%d unsupported builtin %s" % (func.qualname, ln, base))
         if base == "roll" and args and isinstance(args[0], tuple) and args[0] and args[0][0] == "jacview":
             return ("rolled", args[0])
+        if base in ("any", "all", "count_nonzero", "allclose", "isclose", "array_equal") and args and any(isinstance(a, (AArr, Packed, JacMat, Op, DataVal, tuple)) for a in args):
+            return DataCond(unparse(node))
+        if base in ("min", "amin", "max", "amax", "linalg.norm", "norm", "mean", "abs", "absolute") and args and isinstance(args[0], (JacMat, Op, DataVal)):
+            return DataVal(unparse(node))           # magnitude of the matrix / of a data-derived scalar
         if base in ("min", "amin"):
             return self.dtred("min", args[0])
         if base in ("max", "amax"):
@@ -1344,11 +1413,57 @@ def dt_arg():
     return S({1: Fraction(1)}, {"arr"})
 
 
+def _step_signature(out):
+    sig = []
+    for o in out:
+        f = o["field"]
+        sig.append((repr(f.time.s if hasattr(f.time, "s") else f.time), tuple(sorted((repr(k), tuple(sorted(v.items()))) for q in range(NEQ) for k, v in f.data[q].form.items())),
+                    len(o["K"]), len(o["solves"])))
+    return tuple(sig)
+
+
 def run_step(project, cls, nsteps=1, rhs_owned=False):
+    """all outcome vectors of the data-dependent conditions a step meets (a shortcut for special states: a
+    zero residual, a small Jacobian, a norm below a tolerance) are explored; every path that returns must give
+    the same abstract result -- otherwise the step is not ONE formula for every right-hand side"""
+    pending = [()]
+    done = []
+    while pending:
+        pol = pending.pop(0)
+        if len(pol) > 4:
+            raise AnalysisError("%s: more than 4 data-dependent conditions in one step" % cls.qualname)
+        try:
+            ai, out = _run_step_path(project, cls, nsteps, rhs_owned, pol)
+        except _NeedPolicy:
+            pending.append(pol + (True,))
+            pending.append(pol + (False,))
+            continue
+        except AnalysisError as e:
+            if pol and "raise reached" in str(e):
+                continue                     # an exception path (e.g. a NaN guard): not a result
+            raise
+        done.append((pol, ai, out, list(ai.data_log)))
+    if not done:
+        raise AnalysisError("%s: no path through step() returns" % cls.qualname)
+    sigs = {}
+    for pol, ai, out, log in done:
+        sigs.setdefault(_step_signature(out), []).append((pol, log))
+    if len(sigs) > 1:
+        # the path on which no special case was taken is the reference; name the other one
+        texts = sorted(("; ".join(l[1]) for ls in sigs.values() for l in ls if l[1]), key=len)
+        e = DataDependentStep("%s.step takes a data-dependent shortcut: its update differs between the paths [%s]" % (cls.qualname, " | ".join(texts[:2])))
+        e.violation = ("STEP-ONE-FORMULA", cls.qualname, "the effect of step() depends on a condition on the VALUES of the data (%s): on that path the update is not the same combination of right-hand-side evaluations -- the step is not one Runge-Kutta / theta-scheme formula for every right-hand side (a time-dependent right-hand side can vanish at the start of a step without vanishing at the later stages; a small Jacobian does not make the implicit step explicit)" % " | ".join(texts[:2]),
+                       "data-dependent-step", {"C04", "C05", "C06"})
+        raise e
+    return done[0][1], done[0][2]
+
+
+def _run_step_path(project, cls, nsteps, rhs_owned, policy):
     """construct an abstract integrator of class `cls`, run `nsteps` steps (each on a fresh
     initial field) and return [(field_after, trace_slice)] plus the interpreter"""
     ai = AffInterp(project, cls)
     ai.rhs_owned = rhs_owned
+    ai.data_policy, ai.data_log = list(policy), []
     ai.construct()
     out = []
     for n in range(nsteps):
